@@ -760,7 +760,8 @@ class CountArg(query_compile.EvalAggregator):
 class SumInt(query_compile.EvalAggregator):
     """Calculate the sum of the numerical argument."""
     def __init__(self, context, operands):
-        super().__init__(context, operands, operands[0].dtype)
+        # The sum of bool values, that are also int values, is an int.
+        super().__init__(context, operands, int)
 
     def update(self, store, context):
         value = self.operands[0](context)
